@@ -142,54 +142,20 @@ theorem repr_independent_toF64 {a b : Num} (h : SameInt a b) : a.toF64 = b.toF64
   obtain ⟨x, ha, hb, _, _⟩ := h
   rcases isInt_cases ha with rfl | rfl <;> rcases isInt_cases hb with rfl | rfl <;> rfl
 
-/-- `float_cmp` is antisymmetric as soon as the left operand is not NaN -/
-theorem f64_cmp_swap (f g : UInt64) (hf : F64.isNaN f = false) :
-    F64.cmp f g = (F64.cmp g f).swap := by
-  unfold F64.cmp
-  by_cases hz : (F64.isZero f && F64.isZero g) = true
-  · have hz' : (F64.isZero g && F64.isZero f) = true := by
-      rw [Bool.and_comm]; exact hz
-    simp [hz, hz']
-  · have hz' : ¬ (F64.isZero g && F64.isZero f) = true := by
-      rw [Bool.and_comm]; exact hz
-    simp only [hz, hz', hf, if_false, Bool.false_eq_true]
-    by_cases hg : F64.isNaN g = true
-    · simp [hg]
-    · have hg' : F64.isNaN g = false := by simpa using hg
-      simp only [hg', Bool.false_eq_true, if_false]
-      cases h : compare (F64.totalKey g) (F64.totalKey f) <;>
-        simp [Int.compare_eq_lt, Int.compare_eq_gt, Ordering.swap] at * <;> omega
-
-/-- comparison and equality against any third number do not see the representation.
-Partial: the third number is neither NaN nor an infinite float.  (Since fix 18a519c a big-integer
-representation is compared with ±Infinity by a separate rule, `bigFloatCmp`; the two rules agree
-on machine-size values because `F64.ofInt x` is finite for |x| ≤ 2^63 — that finiteness lemma
-about `F64.roundRat` is not proved yet; the case is exercised by the correspondence on the
-pool, which contains ±Infinity, `1e1000` and every representation boundary.) -/
-theorem repr_independent_cmp_partial {a b : Num} (h : SameInt a b) (c : Num)
-    (hc : ∀ f, Num.undec c = .float f → f ≠ F64.posInf ∧ f ≠ F64.negInf ∧ F64.isNaN f = false) :
+/-- comparison and equality against any third number do not see the representation -/
+theorem repr_independent_cmp {a b : Num} (h : SameInt a b) (c : Num) :
     Num.cmp a c = Num.cmp b c ∧ Num.cmp c a = Num.cmp c b ∧
     Num.eq a c = Num.eq b c ∧ Num.eq c a = Num.eq c b := by
   obtain ⟨x, ha, hb, _, _⟩ := h
-  have key : ∀ c : Num, (∀ f, Num.undec c = .float f → f ≠ F64.posInf ∧ f ≠ F64.negInf ∧ F64.isNaN f = false) →
+  have key : ∀ c : Num,
       Num.cmp (.int x) c = Num.cmp (.big x) c ∧ Num.cmp c (.int x) = Num.cmp c (.big x) ∧
       Num.eq (.int x) c = Num.eq (.big x) c ∧ Num.eq c (.int x) = Num.eq c (.big x) := by
-    intro c hc
-    cases c with
-    | int y => simp [Num.cmp, Num.eq, Num.undec]
-    | big y => simp [Num.cmp, Num.eq, Num.undec]
-    | float f =>
-      obtain ⟨h1, h2, h3⟩ := hc f rfl
-      simp [Num.cmp, Num.eq, Num.undec, Num.bigFloatCmp, h1, h2]
-      exact f64_cmp_swap f _ h3
-    | dec s =>
-      obtain ⟨h1, h2, h3⟩ := hc (F64.ofDec s) rfl
-      simp [Num.cmp, Num.eq, Num.undec, Num.ofDecStr, Num.bigFloatCmp, h1, h2]
-      exact f64_cmp_swap _ _ h3
+    intro c
+    cases c <;> simp only [Num.cmp, Num.eq, Num.undec, Num.ofDecStr] <;> simp
   rcases isInt_cases ha with rfl | rfl <;> rcases isInt_cases hb with rfl | rfl
   · exact ⟨rfl, rfl, rfl, rfl⟩
-  · exact key c hc
-  · obtain ⟨h1, h2, h3, h4⟩ := key c hc
+  · exact key c
+  · obtain ⟨h1, h2, h3, h4⟩ := key c
     exact ⟨h1.symm, h2.symm, h3.symm, h4.symm⟩
   · exact ⟨rfl, rfl, rfl, rfl⟩
 
